@@ -32,6 +32,10 @@ EXPLANATION = __doc__
 def expected_sys(d) -> set[str]:
     if not d["started"]:
         return {"Stopped"}
+    if d["if_Restart"] is not None and d["stopping"]:
+        # a restart is under way (its first step has run: stopping is set until the old run has ended): the tag says so, and the
+        # control commands that are invalid during a restart stay invalid
+        return {"Restarting"}
     base = "Paused" if d["paused"] else "Holding" if d["holding"] else "Running"
     out = {base}
     if d["if_Restart"] is not None:
